@@ -260,7 +260,7 @@ func Explore(w *World, h *Harness, workers int) *Result {
 	}
 	wg.Wait()
 	wl.mu.Lock()
-	if len(wl.items) > 0 && !res.PathCapHit {
+	if len(wl.items) > 0 && !res.PathCapHit && len(res.Violations) <= 50 {
 		res.Inconcl = append(res.Inconcl, fmt.Sprintf("exploration stopped early with %d prefixes pending", len(wl.items)))
 	}
 	if res.PathCapHit {
